@@ -267,6 +267,7 @@ def opDiv : List PV → Except Err PV
 
 def opMod : List PV → Except Err PV
   | [.int a, .int b] => if b = 0 then .error (.runtime "ZeroDivisionError") else .ok (.int (a % b))
+  | [.str _, _] => .ok (.str "<formatted>")        -- `'…%s…' % args`: a text whose content is not modelled (messages)
   | _ => tyErr "%"
 
 def opNeg : List PV → Except Err PV
